@@ -45,8 +45,8 @@ LEVEL_NOTE = ("Trusted: Coq kernel, extraction, the object->state abstraction Wo
               "plain objects and aliases with stale entries are covered by the generator and the exact classifiers of C16-F1/F3 only. Three conjuncts "
               "of the discipline (an alias has no members, is nobody's parent, nobody's target) are invariants that are checked on every step, not "
               "proved. Which exception reports a rejection is canonicalised away.")
-MODEL = ("Model.C16_tree", "run_C16")
-COQ_TARGETS = ["Proofs/C16_tree.vo"]
+MODEL = ("Model.C16_through", "run_C16t")
+COQ_TARGETS = ["Proofs/C16_tree.vo", "Proofs/C16_through.vo"]
 TRANSLATOR_NAME = "harness/translate/c16_shape.py -> coq/Gen/C16_shape.v"
 ATTACH_FIRST = False     # what the translator read from set_member (set by translate)
 
@@ -172,13 +172,16 @@ def is_loose(w, v) -> bool:
 
 
 def reattach_ok(w, op) -> bool:
-    """Python mirror of the Coq predicate reattach_ok: an alias that was deleted or replaced, of which nothing is left behind,
-    is inserted again under its own name through a receiver that is in the tree (not directly into the collection)."""
+    """Python mirror of the Coq predicate reattach_ok: an alias - or an object without members - that was deleted or replaced, of
+    which nothing is left behind, is inserted again under its own name through a receiver that is in the tree (not directly into
+    the collection)."""
     _, _, r, p, vi = op
     if vi >= len(w.objs) or (r == [] and len(p) == 1):
         return False
     v = w.objs[vi]
-    if not v.is_alias or not is_loose(w, v) or (p[-1] if p else "") != v.name:
+    if not v.is_alias and len(v.members) > 0:
+        return False        # an alias, or an object without members (plain objects have no target)
+    if not is_loose(w, v) or (p[-1] if p else "") != v.name:
         return False
     return r == [] or (r[0] < len(w.objs) and is_live(w, w.objs[r[0]]))
 
@@ -1049,6 +1052,7 @@ def run_history(ctx, hist, label, every_step=True):
 def compare_batch(ctx, batch):
     """batch: list of (mode, ops, hist, label)."""
     outs = ctx.model([[mode, ops] for mode, ops, _, _ in batch])
+    through = []
     for (mode, ops, hist, label), mo in zip(batch, outs):
         if mo == ["bad-input"]:
             ctx.tie_failure("harness", "model rejected the operation encoding", ops)
@@ -1113,7 +1117,67 @@ def compare_batch(ctx, batch):
         if mismatch is not None:
             ctx.tie_failure("correspondence", "step(model) vs griffe object API", mismatch,
                             {"stream": label, "history": [{"op": o, "form": f} for o, f in hist]})
+        elif mode == "trace":
+            qs = through_queries(ctx, w)
+            if qs:
+                through.append((ops, hist, label, w, qs))
         ctx.count("histories")
+    compare_through(ctx, through)
+
+
+def through_queries(ctx, w):
+    """Lookups THROUGH the aliases of the tree a history ends in: (receiver, path) pairs, absolute and relative."""
+    rng = ctx.rng
+    als = [(p, m) for p, _, _, m in w.walk() if m.is_alias and len(p) >= 2]
+    if not als:
+        return []
+    qs = []
+    res = [(p, m) for p, m in als if m._target is not None]
+    picked = rng.sample(res, min(2, len(res))) + rng.sample(als, min(2, len(als)))
+    for p, m in picked:
+        t = m._target
+        known = list(t.members) if t is not None and not t.is_alias else []       # read without resolving anything
+        for n in (known[:3] or NAMES):
+            qs.append([[], list(p) + [n]])
+            if known and not t.members[n].is_alias and t.members[n].members:
+                qs.append([[], list(p) + [n, next(iter(t.members[n].members))]])
+        qs.append([[], list(p) + [rng.choice(NAMES), rng.choice(NAMES)]])
+        qs.append([[], list(p) + [rng.choice(NAMES), rng.choice(NAMES), rng.choice(NAMES)]])
+        par = m.parent
+        if par is not None and w.idx(par) >= 0:
+            qs.append([[w.idx(par)], [m.name, rng.choice(NAMES)]])
+        qs.append([[w.idx(m)], [rng.choice(NAMES)]])
+    return qs
+
+
+def compare_through(ctx, items):
+    """gett (Model/C16_through.v) vs get_member through aliases, in the final state of each history. The model is read-only:
+    where it meets a link that is not resolved yet it answers `scope` and the lookup is not run on the implementation (it would
+    resolve the link)."""
+    if not items:
+        return
+    outs = ctx.model([["through", ops, qs] for ops, _, _, _, qs in items])
+    _, ARE, CAE = _griffe()
+    for (ops, hist, label, w, qs), mo in zip(items, outs):
+        if mo == ["bad-input"]:
+            ctx.tie_failure("harness", "model rejected the through-query encoding", qs)
+            continue
+        for (r, p), mr in zip(qs, mo):
+            ctx.observe("through_model", mr[0] if mr[0] != "ok" else "ok/" + mr[1][0])
+            if mr[0] in ("scope", "bad", "fuel"):
+                continue
+            try:
+                x = w.recv(r).get_member(tuple(p))
+                if id(x) in w.ids:
+                    ir = ["ok", ["n", w.idx(x)]]
+                else:
+                    ir = ["ok", ["w", ["ok", x.path.split(".")], w.idx(x._target) if x._target is not None else -1]]
+            except Exception as e:  # noqa: BLE001
+                ir = [err_name(e)]
+            if ir != mr:
+                ctx.tie_failure("correspondence", "gett(model) vs get_member through aliases", {"query": [r, p], "model": mr, "impl": ir},
+                                {"stream": label, "history": [{"op": o, "form": f} for o, f in hist]})
+                break
 
 
 def first_diff(ms, ist):
